@@ -313,8 +313,11 @@ func (g *generator) walkOneOf(schema *openapi3.Schema) (ast.Type, error) {
 	if err != nil {
 		return ast.Type{}, err
 	}
+	def = withDefault(def, schema)
+	// `nullable` next to the composition keyword: null is accepted besides the branches
+	def.Nullable = def.Nullable || schema.Nullable
 
-	return withDefault(def, schema), nil
+	return def, nil
 }
 
 func (g *generator) walkAnyOf(schema *openapi3.Schema) (ast.Type, error) {
@@ -324,8 +327,11 @@ func (g *generator) walkAnyOf(schema *openapi3.Schema) (ast.Type, error) {
 	if err != nil {
 		return ast.Type{}, err
 	}
+	def = withDefault(def, schema)
+	// `nullable` next to the composition keyword: null is accepted besides the branches
+	def.Nullable = def.Nullable || schema.Nullable
 
-	return withDefault(def, schema), nil
+	return def, nil
 }
 
 // withDefault gives the type of a node described by a composition keyword
@@ -388,7 +394,7 @@ func (g *generator) walkEnum(schema *openapi3.Schema) (ast.Type, error) {
 	}
 
 	def := ast.NewEnum(enums, ast.Default(typedValue(schema, schema.Default)))
-	def.Nullable = nullable
+	def.Nullable = nullable || schema.Nullable
 
 	return def, nil
 }
